@@ -114,10 +114,18 @@ func lateIgnorer(r *vlib.Run, base string, report func(kind string, c dcase)) {
 	case <-time.After(dist + hard):
 		report("not-finished-long-after-the-deadline", dcase{"not-finished-long-after-the-deadline", -1, dist.String(), "100ms", specs,
 			fmt.Sprintf("%v after the deadline RunT has still not finished: a command that ignores the interrupt and was started after the context had expired was never killed (its processes: %v)", hard, stray()), ""})
-		for _, pid := range stray() {
-			syscall.Kill(pid, syscall.SIGKILL)
+		// end the run by hand: every process of this case is killed as it appears (a tree that ignores the
+		// deadline altogether starts the second script's command only after the first one died)
+		for i := 0; i < 150; i++ {
+			for _, pid := range stray() {
+				syscall.Kill(pid, syscall.SIGKILL)
+			}
+			select {
+			case <-finished:
+				return
+			case <-time.After(200 * time.Millisecond):
+			}
 		}
-		<-finished
 		return
 	}
 	took := time.Duration(vlib.MonoNow() - start)
